@@ -253,6 +253,48 @@ ONESHOT = "channel::oneshot::verif_oneshot::proofs"
 ONESHOT_BC = "channel::oneshot_broadcast::verif_oneshot_bc::proofs"
 
 
+STATE = "channel::state_broadcast::verif_state::proofs"
+
+
+def recv_chan_prop(pid, pbit, mods, what, funcs, extra_quick=(), extra_thorough=()):
+    """mods: list of (module path, replay prefix, label, witness name, witness bit)"""
+    tag = pid.lower()
+    quick, thorough = [], []
+    for (mod, rp, label, wname, wbit) in mods:
+        quick += [
+            H(mod, "step_%s" % tag, "step", est_s=30,
+              bounds="E-STEP %s: K=3 receive futures in arbitrary states/queue order/stored wakers, arbitrary channel state, "
+                     "1 of poll(A|B)/drop/send/close%s" % (label, "/try_receive, state id full-range u64" if "state" in rp else "")),
+            H(mod, "hist_%s_n6" % tag, "hold", replay=(rp + "_hist_noop", 0), mask=P(pbit), est_s=150,
+              bounds="E-HIST %s: K=3 slots (re-creatable), N=6 operations from new(), wakers A|B, symmetry broken" % label),
+            H(mod, wname, "witness", replay=(rp + "_hist_noop", 0), mask=PALL, witness_bit=wbit, est_s=150,
+              bounds="witness twin (%s)" % label),
+        ]
+        thorough += [
+            H(mod, "hist_%s_n7" % tag, "hold", replay=(rp + "_hist_noop", 0), mask=P(pbit), est_s=800, timeout=3000, bounds="E-HIST %s: N=7" % label),
+            H(mod, "hist_%s_n6_check" % tag, "hold", replay=(rp + "_hist_check", 0), mask=P(pbit), est_s=400, timeout=3000,
+              bounds="E-HIST %s: N=6, MutexType=CheckLock" % label),
+            H(mod, "hist_%s_n8" % tag, "hold", replay=(rp + "_hist_noop", 0), mask=P(pbit), est_s=3000, timeout=3400, bonus=True,
+              bounds="E-HIST %s: N=8 (bonus)" % label),
+        ]
+    quick += list(extra_quick)
+    thorough = quick + thorough + list(extra_thorough)
+    return {"quick": quick, "thorough": thorough, "functions": funcs,
+            "instantiations": ["%s over NoopLock (CheckLock in thorough), T = Tag" % what],
+            "bounds": {"quick": {"K_live_futures": 3, "N_ops": 6, "step_history_length": "unbounded (inductive)"},
+                       "thorough": {"K_live_futures": 3, "N_ops": 7, "N_ops_bonus": 8}},
+            "assumptions": []}
+
+
+ONESHOT_FUNCS = ["oneshot::ChannelState::send", "oneshot::ChannelState::close", "oneshot::ChannelState::try_receive",
+                 "oneshot::ChannelState::remove_waiter", "oneshot_broadcast::ChannelState::{send,close,try_receive,remove_waiter}",
+                 "wake_waiters", "<ChannelReceiveFuture as Future>::poll", "<ChannelReceiveFuture as Drop>::drop",
+                 "LinkedList::add_front", "LinkedList::remove", "LinkedList::reverse_drain", "utils::update_waker_ref"]
+STATE_FUNCS = ["state_broadcast::ChannelState::{send,close,try_receive,receive_or_register,remove_waiter}", "wake_waiters",
+               "<StateReceiveFuture as Future>::poll", "<StateReceiveFuture as Drop>::drop", "LinkedList::add_front",
+               "LinkedList::remove", "LinkedList::reverse_drain", "utils::update_waker_ref"]
+
+
 def c11_prop():
     quick = [
         H(LIFE, "life_oneshot_bc_n3", "hold", replay=("life_oneshot_bc", 0), mask=P(11), est_s=140,
@@ -263,7 +305,17 @@ def c11_prop():
         H(LIFE, "life_witness_oneshot_bc_n3", "witness", replay=("life_oneshot_bc", 0), mask=PALL, witness_bit=5, est_s=200,
           bounds="witness twin: a non-last receiver handle is dropped, later the last one"),
     ]
+    for (mod, rp, label) in ((ONESHOT, "oneshot", "oneshot"), (ONESHOT_BC, "oneshot_bc", "oneshot-broadcast"), (STATE, "state", "state-broadcast")):
+        quick.append(H(mod, "step_c11", "step", est_s=30, bounds="E-STEP %s: close()/send-after-close semantics from an arbitrary state" % label))
+        quick.append(H(mod, "hist_c11_n5", "hold", replay=(rp + "_hist_noop", 0), mask=P(11), est_s=80,
+                       bounds="E-HIST %s: close status sequence, sends after close hand the value back, pending receivers woken; N=5" % label))
+    quick.append(H(LIFE, "life_state_n3", "hold", replay=("life_state", 0), mask=P(11), est_s=200,
+                   bounds="E-HIST lifecycle, shared state-broadcast: up to 2+2 handles, 3 clone/drop operations"))
     thorough = quick + [
+        H(ONESHOT, "hist_c11_n7", "hold", replay=("oneshot_hist_noop", 0), mask=P(11), est_s=600, timeout=3000, bounds="E-HIST oneshot N=7"),
+        H(ONESHOT_BC, "hist_c11_n7", "hold", replay=("oneshot_bc_hist_noop", 0), mask=P(11), est_s=600, timeout=3000, bounds="E-HIST oneshot-broadcast N=7"),
+        H(STATE, "hist_c11_n7", "hold", replay=("state_hist_noop", 0), mask=P(11), est_s=600, timeout=3000, bounds="E-HIST state-broadcast N=7"),
+        H(LIFE, "life_state_n4", "hold", replay=("life_state", 0), mask=P(11), est_s=600, timeout=3000, bounds="lifecycle state-broadcast, 4 operations"),
         H(LIFE, "life_oneshot_bc_n4", "hold", replay=("life_oneshot_bc", 0), mask=P(11), est_s=400, timeout=3000, bounds="lifecycle oneshot-broadcast, 4 operations"),
         H(LIFE, "life_oneshot_bc_n4_check", "hold", replay=("life_oneshot_bc_check", 0), mask=P(11), est_s=400, timeout=3000,
           bounds="lifecycle oneshot-broadcast, 4 operations, MutexType=CheckLock"),
@@ -278,6 +330,38 @@ def c11_prop():
             "assumptions": ["handle counters are modelled sequentially (no weak-memory effects)"]}
 
 
+TIMER = "timer::timer::verif_timer::proofs"
+
+
+def c15_prop():
+    quick = [
+        H(TIMER, "step_c15_poll", "step", est_s=200, bounds="E-STEP timer: ANY heap-ordered tree over the registered subset of 4 timer futures, deadlines and clock full u64, poll(A|B)"),
+        H(TIMER, "step_c15_drop", "step", est_s=200, bounds="E-STEP timer: same pre-state, drop of any future (heap removal)"),
+        H(TIMER, "step_c15_check", "step", est_s=300, bounds="E-STEP timer: same pre-state, check_expirations() + next_expiration()"),
+        H(TIMER, "delay_full_range", "hold", replay=("timer_delay", 0), mask=P(15), est_s=60,
+          bounds="delay(d) = deadline(now + d) saturating: Duration (secs u64, nanos < 1e9) and clock full range"),
+        H(TIMER, "hist_c15_n5", "hold", replay=("timer_hist_noop", 0), mask=P(15), est_s=200,
+          bounds="E-HIST timer: K=3 slots (re-creatable), deadlines 0..3, clock advances 1|2, N=5 operations, 11-way alphabet"),
+        H(TIMER, "witness_order_n6", "witness", replay=("timer_hist_noop", 0), mask=PALL, witness_bit=1, est_s=250,
+          bounds="witness twin: one check_expirations expires two timers with different deadlines"),
+    ]
+    thorough = quick + [
+        H(TIMER, "hist_c15_n6", "hold", replay=("timer_hist_noop", 0), mask=P(15), est_s=900, timeout=3000, bounds="E-HIST timer N=6"),
+        H(TIMER, "hist_c15_n5_check", "hold", replay=("timer_hist_check", 0), mask=P(15), est_s=600, timeout=3000, bounds="E-HIST timer N=5, MutexType=CheckLock"),
+        H(TIMER, "hist_c15_n7", "hold", replay=("timer_hist_noop", 0), mask=P(15), est_s=3000, timeout=3400, bonus=True, bounds="E-HIST timer N=7 (bonus)"),
+    ]
+    return {"quick": quick, "thorough": thorough,
+            "functions": ["TimerState::try_wait", "TimerState::remove_waiter", "TimerState::next_expiration", "TimerState::check_expirations",
+                          "GenericTimerService::deadline_from_now", "LocalTimer::delay", "LocalTimer::deadline", "<LocalTimerFuture as Future>::poll",
+                          "<LocalTimerFuture as Drop>::drop", "PairingHeap::insert", "PairingHeap::remove", "PairingHeap::peek_min",
+                          "merge_children", "meld", "add_child", "utils::update_waker_ref", "Duration::as_millis"],
+            "instantiations": ["GenericTimerService<NoopLock> (CheckLock in thorough), harness Clock over a static AtomicU64"],
+            "bounds": {"quick": {"K_step": 4, "K_hist": 3, "N_ops": 5, "deadlines_hist": "0..3", "deadlines_step": "full u64"},
+                       "thorough": {"N_ops": 6, "N_ops_bonus": 7}},
+            "assumptions": ["the clock is a harness Clock returning the script-controlled monotone value; StdClock (wall clock) is not used",
+                            "the Timer (Send) facade is a pure wrapper of LocalTimerFuture; only the LocalTimer trait is driven"]}
+
+
 def _c16(prop, tier, seed):
     import os, sys
     sys.path.insert(0, os.path.join(os.path.dirname(os.path.abspath(__file__)), "c16"))
@@ -287,7 +371,13 @@ def _c16(prop, tier, seed):
 
 CUSTOM = {"C16": _c16}
 PROPS["C11"] = c11_prop()
+PROPS["C12"] = recv_chan_prop("C12", 12, [(ONESHOT, "oneshot", "oneshot", "witness_second_receive_n6", 3),
+                                          (ONESHOT_BC, "oneshot_bc", "oneshot-broadcast", "witness_second_receive_n6", 3)],
+                              "GenericOneshotChannel / GenericOneshotBroadcastChannel", ONESHOT_FUNCS)
+PROPS["C13"] = recv_chan_prop("C13", 13, [(STATE, "state", "state-broadcast", "witness_follower_n6", 3)],
+                              "GenericStateBroadcastChannel", STATE_FUNCS)
 PROPS["C14"] = c14_prop()
+PROPS["C15"] = c15_prop()
 PROPS["C19"] = c19_prop()
 PROPS["C20"] = c20_prop()
 PROPS["C16"] = {
@@ -420,6 +510,60 @@ def decode_life(cfg, script):
 
 for _n in ("life_mpmc", "life_oneshot", "life_oneshot_bc", "life_state", "life_mpmc_check", "life_oneshot_bc_check", "life_state_check"):
     DECODERS[_n] = decode_life
+def decode_recv(kind):
+    def f(cfg, script):
+        out = ["new()"]
+        it = iter(script)
+        alive = [True] * 3
+        for op in it:
+            if op < 6:
+                i = op // 2
+                if not alive[i] and kind == "state":
+                    out.append("re-create receive future #%d requesting an id newer than %d" % (i, next(it, 0)))
+                alive[i] = True
+                out.append("poll receive-future #%d with waker %s (re-created first if dropped)" % (i, "AB"[op % 2]))
+            elif op < 9:
+                out.append("drop receive-future #%d" % (op - 6))
+                alive[op - 6] = False
+            elif op == 9:
+                out.append("send(next tag)")
+            elif op == 10:
+                out.append("close()")
+            elif op == 11 and kind == "state":
+                out.append("try_receive(id %d)" % next(it, 0))
+            else:
+                out.append("<byte %d>" % op)
+        return out
+    return f
+
+
+for _n, _k in (("oneshot_hist_noop", "oneshot"), ("oneshot_hist_check", "oneshot"), ("oneshot_bc_hist_noop", "oneshot"),
+               ("oneshot_bc_hist_check", "oneshot"), ("state_hist_noop", "state"), ("state_hist_check", "state")):
+    DECODERS[_n] = decode_recv(_k)
+def decode_timer(cfg, script):
+    it = iter(script)
+    out = ["clock=0; timer futures #0,#1,#2 with deadlines %s" % [next(it, 0), next(it, 0), next(it, 0)]]
+    alive = [True] * 3
+    for op in it:
+        if op < 6:
+            i = op // 2
+            if not alive[i]:
+                out.append("re-create timer future #%d with deadline %d" % (i, next(it, 0)))
+                alive[i] = True
+            out.append("poll timer-future #%d with waker %s" % (i, "AB"[op % 2]))
+        elif op < 9:
+            out.append("drop timer-future #%d" % (op - 6))
+            alive[op - 6] = False
+        elif op == 9:
+            out.append("advance clock by %d" % (1 + next(it, 0)))
+        elif op == 10:
+            out.append("check_expirations()")
+        else:
+            out.append("<byte %d>" % op)
+    return out
+
+
+DECODERS.update({"timer_hist_noop": decode_timer, "timer_hist_check": decode_timer, "timer_delay": decode_raw})
 DECODERS.update({"event_hist_noop": decode_event, "event_hist_check": decode_event})
 
 
